@@ -1,1 +1,561 @@
-//! stub: scripted local OTLP collector (engine E4), to be built
+//! Engine E4 — a scripted local OTLP collector (DESIGN §2).
+//!
+//! * `127.0.0.1:0` listeners only. HTTP/1.1 is a hand-rolled server on `std::net` + threads (full
+//!   control over when the socket is closed); gRPC is an `h2` server on a private current-thread
+//!   tokio runtime (started lazily by [`Collector::grpc_url`]).
+//! * Every request is logged ([`RequestLog`]): arrival sequence number, connection id (one per accepted
+//!   TCP connection, shared counter for both servers), path/signal, encoding, gzip, the scripted
+//!   [`Decision`] that was applied, what finally happened ([`Outcome`]) and the decoded records reduced
+//!   to what checks need ([`Record`]); the full decoded message is available through
+//!   [`RequestLog::decode`].
+//! * Scripting: a per-signal queue of decisions consumed one per request (in arrival order of that
+//!   signal), with a per-signal default used when the queue is empty. `Hold(latch)` keeps a request
+//!   open (body read, no answer) until [`Collector::release`] — the "plug" C12 uses to make later events
+//!   accumulate into one multi-request batch.
+//!
+//! The API is synchronous; nothing here uses the wall clock except as a deadline for
+//! [`Collector::wait_until`] (whose `false` result checks must treat as *inconclusive*, never as a
+//! property violation by itself).
+
+use serde::{Deserialize, Serialize};
+use std::collections::{BTreeSet, VecDeque};
+use std::net::{SocketAddr, TcpListener, TcpStream};
+use std::sync::atomic::{AtomicBool, AtomicU64, Ordering};
+use std::sync::{Arc, Condvar, Mutex};
+use std::thread::JoinHandle;
+use std::time::{Duration, Instant};
+
+pub mod decode;
+mod grpc;
+mod http1;
+pub mod json;
+pub mod proto;
+
+pub use decode::Decoded;
+
+#[derive(Clone, Copy, PartialEq, Eq, Hash, PartialOrd, Ord, Debug, Serialize, Deserialize)]
+pub enum Signal {
+    Logs,
+    Traces,
+    Metrics,
+}
+
+impl Signal {
+    pub const ALL: [Signal; 3] = [Signal::Logs, Signal::Traces, Signal::Metrics];
+
+    pub fn index(self) -> usize {
+        self as usize
+    }
+
+    pub fn http_path(self) -> &'static str {
+        match self {
+            Signal::Logs => "/v1/logs",
+            Signal::Traces => "/v1/traces",
+            Signal::Metrics => "/v1/metrics",
+        }
+    }
+
+    pub fn grpc_path(self) -> &'static str {
+        match self {
+            Signal::Logs => "/opentelemetry.proto.collector.logs.v1.LogsService/Export",
+            Signal::Traces => "/opentelemetry.proto.collector.trace.v1.TraceService/Export",
+            Signal::Metrics => "/opentelemetry.proto.collector.metrics.v1.MetricsService/Export",
+        }
+    }
+
+    pub fn of_path(path: &str) -> Option<Signal> {
+        let path = path.split('?').next().unwrap_or(path);
+        Signal::ALL.into_iter().find(|s| path == s.http_path() || path == s.grpc_path())
+    }
+}
+
+#[derive(Clone, Copy, PartialEq, Eq, Hash, Debug, Serialize, Deserialize)]
+pub enum Transport {
+    Http1,
+    Grpc,
+}
+
+#[derive(Clone, Copy, PartialEq, Eq, Hash, Debug, Serialize, Deserialize)]
+pub enum Encoding {
+    Proto,
+    Json,
+    Unknown,
+}
+
+/// What the collector does with one request.
+#[derive(Clone, PartialEq, Eq, Debug, Serialize, Deserialize)]
+pub enum Decision {
+    /// read, answer success (HTTP 200 / grpc-status 0), keep the connection
+    Ack,
+    /// read, answer success, then close the connection (HTTP/1: `connection: close`; gRPC: GOAWAY)
+    AckThenClose,
+    /// read, answer this HTTP status (gRPC: this `:status` and no grpc-status at all)
+    Status(u16),
+    /// gRPC: read, answer 200 + headers, then trailers with this grpc-status. On HTTP/1 answered as 500.
+    GrpcStatus(i32),
+    /// gRPC: read, answer a Trailers-Only response (one HEADERS frame with END_STREAM carrying
+    /// grpc-status) — how real servers report immediate errors. On HTTP/1 answered as 500.
+    GrpcStatusTrailersOnly(i32),
+    /// close the connection once the request head is known, before reading any of the body
+    CloseBeforeRead,
+    /// read the whole request, then close the connection without answering
+    ReadThenClose,
+    /// read the whole request, then hold the connection open without answering until
+    /// `release_stalls()` / shutdown / the peer gives up; then close without answering
+    Stall,
+    /// read the whole request, wait until `release(latch)`, then answer success
+    Hold(u32),
+}
+
+#[derive(Clone, Copy, PartialEq, Eq, Debug, Serialize, Deserialize)]
+pub enum Phase {
+    /// head seen, decision taken, body not (completely) read yet
+    Head,
+    /// body read and decoded
+    Body,
+    /// waiting on a `Hold` latch
+    Held,
+    /// stalling
+    Stalled,
+    /// finished (see `outcome`)
+    Done,
+}
+
+#[derive(Clone, Copy, PartialEq, Eq, Debug, Serialize, Deserialize)]
+pub enum Outcome {
+    Pending,
+    /// a success response was written completely
+    Acked,
+    /// a failure response (status / grpc-status) was written completely
+    Rejected,
+    /// the connection was closed (by script, or it broke) without a complete response
+    Dropped,
+}
+
+/// One log record / span / metric of a request, reduced to what routing and delivery checks need.
+#[derive(Clone, PartialEq, Eq, Debug, Serialize, Deserialize)]
+pub struct Record {
+    pub signal: Signal,
+    /// instrumentation scope name (= event module)
+    pub scope: String,
+    /// log body text / span name / metric name
+    pub name: String,
+    /// the `case_id` attribute (for metrics: of the data points), integers rendered in decimal
+    pub case_id: Option<String>,
+    /// metrics: number of data points; otherwise 0
+    pub points: u32,
+}
+
+#[derive(Clone, Debug)]
+pub struct RequestLog {
+    /// arrival order over all signals and transports (0-based; equals the index in `requests()`)
+    pub seq: u64,
+    /// id of the accepted TCP connection the request arrived on
+    pub conn: u64,
+    pub transport: Transport,
+    pub path: String,
+    pub signal: Option<Signal>,
+    pub content_type: String,
+    pub encoding: Encoding,
+    pub gzip: bool,
+    pub headers: Vec<(String, String)>,
+    pub decision: Decision,
+    pub phase: Phase,
+    pub outcome: Outcome,
+    /// bytes of body received on the wire (compressed, framed)
+    pub wire_len: usize,
+    /// bytes of payload after unframing and decompression
+    pub payload_len: usize,
+    pub records: Vec<Record>,
+    /// framing / decompression / decode problem, if any (the scripted decision is applied regardless)
+    pub decode_error: Option<String>,
+    /// tolerated deviations of a JSON body from canonical proto3-JSON
+    pub json_notes: Vec<String>,
+    /// decompressed, unframed payload (kept unless `keep_payloads(false)`)
+    pub payload: Option<Arc<Vec<u8>>>,
+}
+
+impl RequestLog {
+    pub fn acked(&self) -> bool {
+        self.outcome == Outcome::Acked
+    }
+
+    /// failed as seen by the client: rejected or dropped
+    pub fn failed(&self) -> bool {
+        matches!(self.outcome, Outcome::Rejected | Outcome::Dropped)
+    }
+
+    pub fn case_ids(&self) -> BTreeSet<String> {
+        self.records.iter().filter_map(|r| r.case_id.clone()).collect()
+    }
+
+    /// The full decoded message (decoded again from the kept payload).
+    pub fn decode(&self) -> Result<Decoded, String> {
+        let signal = self.signal.ok_or("unknown signal")?;
+        let payload = self.payload.as_ref().ok_or("payload not kept")?;
+        decode::decode(signal, self.encoding, payload).map(|(d, _)| d)
+    }
+}
+
+pub(crate) struct State {
+    pub log: Vec<RequestLog>,
+    scripts: [VecDeque<Decision>; 3],
+    defaults: [Decision; 3],
+    released: BTreeSet<u32>,
+    stalls_released: bool,
+    keep_payloads: bool,
+    streams: Vec<TcpStream>,
+    threads: Vec<JoinHandle<()>>,
+}
+
+pub(crate) struct Inner {
+    pub state: Mutex<State>,
+    pub cv: Condvar,
+    next_conn: AtomicU64,
+    pub shutdown: AtomicBool,
+}
+
+pub(crate) struct Head {
+    pub conn: u64,
+    pub transport: Transport,
+    pub path: String,
+    pub content_type: String,
+    pub encoding: Encoding,
+    pub gzip: bool,
+    pub headers: Vec<(String, String)>,
+}
+
+impl Inner {
+    pub fn next_conn(&self) -> u64 {
+        self.next_conn.fetch_add(1, Ordering::SeqCst)
+    }
+
+    pub fn is_shutdown(&self) -> bool {
+        self.shutdown.load(Ordering::SeqCst)
+    }
+
+    /// Log the arrival of a request and take its scripted decision.
+    pub fn begin(&self, head: Head) -> (usize, Decision, Option<Signal>) {
+        let signal = Signal::of_path(&head.path);
+        let mut st = self.state.lock().unwrap();
+        let decision = match signal {
+            Some(s) => st.scripts[s.index()].pop_front().unwrap_or_else(|| st.defaults[s.index()].clone()),
+            None => Decision::Status(404),
+        };
+        let idx = st.log.len();
+        st.log.push(RequestLog {
+            seq: idx as u64,
+            conn: head.conn,
+            transport: head.transport,
+            path: head.path,
+            signal,
+            content_type: head.content_type,
+            encoding: head.encoding,
+            gzip: head.gzip,
+            headers: head.headers,
+            decision: decision.clone(),
+            phase: Phase::Head,
+            outcome: Outcome::Pending,
+            wire_len: 0,
+            payload_len: 0,
+            records: Vec::new(),
+            decode_error: None,
+            json_notes: Vec::new(),
+            payload: None,
+        });
+        drop(st);
+        self.cv.notify_all();
+        (idx, decision, signal)
+    }
+
+    pub fn update(&self, idx: usize, f: impl FnOnce(&mut RequestLog)) {
+        let mut st = self.state.lock().unwrap();
+        f(&mut st.log[idx]);
+        drop(st);
+        self.cv.notify_all();
+    }
+
+    pub fn finish(&self, idx: usize, outcome: Outcome) {
+        self.update(idx, |r| {
+            r.phase = Phase::Done;
+            r.outcome = outcome;
+        });
+    }
+
+    /// Record the body of request `idx`: unframe/decompress/decode as far as possible.
+    pub fn body(&self, idx: usize, wire_len: usize, payload: Result<Vec<u8>, String>) {
+        let (signal, encoding, keep) = {
+            let st = self.state.lock().unwrap();
+            (st.log[idx].signal, st.log[idx].encoding, st.keep_payloads)
+        };
+        let mut records = Vec::new();
+        let mut notes = Vec::new();
+        let mut err = None;
+        let mut payload_len = 0;
+        let mut kept = None;
+        match payload {
+            Ok(p) => {
+                payload_len = p.len();
+                match signal {
+                    Some(sig) => match decode::decode(sig, encoding, &p) {
+                        Ok((d, n)) => {
+                            records = d.records();
+                            notes = n;
+                        }
+                        Err(e) => err = Some(e),
+                    },
+                    None => err = Some("unknown path".to_string()),
+                }
+                if keep {
+                    kept = Some(Arc::new(p));
+                }
+            }
+            Err(e) => err = Some(e),
+        }
+        self.update(idx, |r| {
+            r.phase = Phase::Body;
+            r.wire_len = wire_len;
+            r.payload_len = payload_len;
+            r.records = records;
+            r.json_notes = notes;
+            r.decode_error = err;
+            r.payload = kept;
+        });
+    }
+
+    pub fn latch_released(&self, latch: u32) -> bool {
+        self.state.lock().unwrap().released.contains(&latch)
+    }
+
+    pub fn stalls_released(&self) -> bool {
+        self.state.lock().unwrap().stalls_released
+    }
+
+    pub fn register_stream(&self, s: &TcpStream) {
+        if let Ok(c) = s.try_clone() {
+            self.state.lock().unwrap().streams.push(c);
+        }
+    }
+
+    pub fn register_thread(&self, h: JoinHandle<()>) {
+        self.state.lock().unwrap().threads.push(h);
+    }
+}
+
+/// A socket that is bound but never listens: connecting to it is refused, and the port stays
+/// reserved for the life of the collector (no other listener in this process can receive the
+/// traffic by accident).
+struct RefusedPort {
+    fd: i32,
+    port: u16,
+}
+
+impl RefusedPort {
+    fn new() -> Option<RefusedPort> {
+        unsafe {
+            let fd = libc::socket(libc::AF_INET, libc::SOCK_STREAM | libc::SOCK_CLOEXEC, 0);
+            if fd < 0 {
+                return None;
+            }
+            let mut addr: libc::sockaddr_in = std::mem::zeroed();
+            addr.sin_family = libc::AF_INET as libc::sa_family_t;
+            addr.sin_port = 0;
+            addr.sin_addr = libc::in_addr { s_addr: u32::from_ne_bytes([127, 0, 0, 1]) };
+            if libc::bind(fd, &addr as *const _ as *const libc::sockaddr, std::mem::size_of::<libc::sockaddr_in>() as libc::socklen_t) != 0 {
+                libc::close(fd);
+                return None;
+            }
+            let mut len = std::mem::size_of::<libc::sockaddr_in>() as libc::socklen_t;
+            if libc::getsockname(fd, &mut addr as *mut _ as *mut libc::sockaddr, &mut len) != 0 {
+                libc::close(fd);
+                return None;
+            }
+            Some(RefusedPort { fd, port: u16::from_be(addr.sin_port) })
+        }
+    }
+}
+
+impl Drop for RefusedPort {
+    fn drop(&mut self) {
+        unsafe {
+            libc::close(self.fd);
+        }
+    }
+}
+
+pub struct Collector {
+    inner: Arc<Inner>,
+    http_addr: SocketAddr,
+    grpc: Mutex<Option<grpc::GrpcServer>>,
+    refused: Mutex<Option<RefusedPort>>,
+}
+
+impl Collector {
+    /// Start the HTTP/1.1 server (the gRPC server starts with the first `grpc_url()` call).
+    pub fn start() -> Collector {
+        let inner = Arc::new(Inner {
+            state: Mutex::new(State {
+                log: Vec::new(),
+                scripts: Default::default(),
+                defaults: [Decision::Ack, Decision::Ack, Decision::Ack],
+                released: BTreeSet::new(),
+                stalls_released: false,
+                keep_payloads: true,
+                streams: Vec::new(),
+                threads: Vec::new(),
+            }),
+            cv: Condvar::new(),
+            next_conn: AtomicU64::new(0),
+            shutdown: AtomicBool::new(false),
+        });
+        let listener = TcpListener::bind("127.0.0.1:0").expect("collector: bind 127.0.0.1:0");
+        let http_addr = listener.local_addr().unwrap();
+        let i2 = inner.clone();
+        let h = std::thread::Builder::new()
+            .name("collector-http-accept".into())
+            .spawn(move || http1::accept_loop(i2, listener))
+            .expect("collector: spawn");
+        inner.register_thread(h);
+        Collector { inner, http_addr, grpc: Mutex::new(None), refused: Mutex::new(None) }
+    }
+
+    /// `http://127.0.0.1:<port>`
+    pub fn http_base(&self) -> String {
+        format!("http://{}", self.http_addr)
+    }
+
+    /// `http://127.0.0.1:<port>/v1/<signal>`
+    pub fn http_url(&self, signal: Signal) -> String {
+        format!("http://{}{}", self.http_addr, signal.http_path())
+    }
+
+    /// Root of the gRPC service (`http://127.0.0.1:<port>`); all three services live on it.
+    pub fn grpc_url(&self) -> String {
+        let mut g = self.grpc.lock().unwrap();
+        if g.is_none() {
+            *g = Some(grpc::GrpcServer::start(self.inner.clone()));
+        }
+        format!("http://{}", g.as_ref().unwrap().addr)
+    }
+
+    /// `http://127.0.0.1:<port>` of a port that refuses connections for the life of the collector.
+    pub fn refused_base(&self) -> String {
+        let mut r = self.refused.lock().unwrap();
+        if r.is_none() {
+            *r = RefusedPort::new();
+        }
+        match r.as_ref() {
+            Some(p) => format!("http://127.0.0.1:{}", p.port),
+            // fall back to a port nobody listens on (port 1 on loopback)
+            None => "http://127.0.0.1:1".to_string(),
+        }
+    }
+
+    /// Replace the decision queue of `signal`.
+    pub fn script(&self, signal: Signal, decisions: Vec<Decision>) {
+        self.inner.state.lock().unwrap().scripts[signal.index()] = decisions.into();
+    }
+
+    /// Append one decision to the queue of `signal`.
+    pub fn push_script(&self, signal: Signal, decision: Decision) {
+        self.inner.state.lock().unwrap().scripts[signal.index()].push_back(decision);
+    }
+
+    /// Decision used for `signal` whenever its queue is empty (initially `Ack`).
+    pub fn set_default(&self, signal: Signal, decision: Decision) {
+        self.inner.state.lock().unwrap().defaults[signal.index()] = decision;
+    }
+
+    /// Number of scripted decisions of `signal` not consumed yet.
+    pub fn script_len(&self, signal: Signal) -> usize {
+        self.inner.state.lock().unwrap().scripts[signal.index()].len()
+    }
+
+    pub fn keep_payloads(&self, keep: bool) {
+        self.inner.state.lock().unwrap().keep_payloads = keep;
+    }
+
+    /// Release a `Hold(latch)` (now or in the future).
+    pub fn release(&self, latch: u32) {
+        self.inner.state.lock().unwrap().released.insert(latch);
+        self.inner.cv.notify_all();
+    }
+
+    /// End all current and future `Stall`s (their connections are closed without an answer).
+    pub fn release_stalls(&self) {
+        self.inner.state.lock().unwrap().stalls_released = true;
+        self.inner.cv.notify_all();
+    }
+
+    pub fn requests(&self) -> Vec<RequestLog> {
+        self.inner.state.lock().unwrap().log.clone()
+    }
+
+    /// Connections accepted so far (both servers).
+    pub fn connections(&self) -> u64 {
+        self.inner.next_conn.load(Ordering::SeqCst)
+    }
+
+    /// Block until `pred(log)` holds or `deadline` elapses; returns whether it held. A `false` is a
+    /// harness-level timeout (inconclusive), never by itself evidence against emit.
+    pub fn wait_until(&self, pred: impl Fn(&[RequestLog]) -> bool, deadline: Duration) -> bool {
+        let end = Instant::now() + deadline;
+        let mut st = self.inner.state.lock().unwrap();
+        loop {
+            if pred(&st.log) {
+                return true;
+            }
+            let now = Instant::now();
+            if now >= end {
+                return false;
+            }
+            let (g, _) = self.inner.cv.wait_timeout(st, (end - now).min(Duration::from_millis(50))).unwrap();
+            st = g;
+        }
+    }
+
+    /// Stop both servers, close every connection, join the threads. Idempotent.
+    pub fn shutdown(&self) {
+        if self.inner.shutdown.swap(true, Ordering::SeqCst) {
+            return;
+        }
+        self.inner.cv.notify_all();
+        // wake the accept loop
+        let _ = TcpStream::connect_timeout(&self.http_addr, Duration::from_millis(500));
+        let (streams, threads) = {
+            let mut st = self.inner.state.lock().unwrap();
+            (std::mem::take(&mut st.streams), std::mem::take(&mut st.threads))
+        };
+        for s in &streams {
+            let _ = s.shutdown(std::net::Shutdown::Both);
+        }
+        if let Some(g) = self.grpc.lock().unwrap().take() {
+            g.stop();
+        }
+        for t in threads {
+            let _ = t.join();
+        }
+        // connection threads registered while we were joining
+        loop {
+            let (streams, threads) = {
+                let mut st = self.inner.state.lock().unwrap();
+                (std::mem::take(&mut st.streams), std::mem::take(&mut st.threads))
+            };
+            if threads.is_empty() {
+                break;
+            }
+            for s in &streams {
+                let _ = s.shutdown(std::net::Shutdown::Both);
+            }
+            for t in threads {
+                let _ = t.join();
+            }
+        }
+    }
+}
+
+impl Drop for Collector {
+    fn drop(&mut self) {
+        self.shutdown();
+    }
+}
